@@ -119,7 +119,151 @@ def one_exec(cfg, order, fail, abort_at):
     return viol, info
 
 
+# ---- index-level push / fetch (closed requests built by the library itself) ----------------
+
+PUSH_TREES = {"d": {"a": "y", "b/c": "z"}, "e": {"k": "y", "m": "w"}}   # share content y
+
+
+def push_exec(cfg):
+    """collect + push (or fetch) of an index with two directory entries sharing a file."""
+    import os
+
+    from dvc_data.hashfile.db import HashFileDB
+    from dvc_data.hashfile.hash_info import HashInfo
+    from dvc_data.hashfile.meta import Meta
+    from dvc_data.index import DataIndex, DataIndexEntry, ObjectStorage
+    from dvc_data.index.collect import collect
+    from dvc_data.index.fetch import fetch
+    from dvc_data.index.push import push
+
+    from .. import ref
+    from ..lab import CONTENTS, make_odb, put_raw
+    from ..world import objects_only, store_snapshot
+    from ..xfer import FaultFS
+
+    viol = []
+    info = {"fired": 0}
+    with World() as w:
+        ffs = FaultFS()
+        ffs.store_root = w.p("dst")
+        os.makedirs(ffs.store_root)
+        if cfg["direction"] == "push":
+            src = make_odb("local", w.p("src"))
+            tmp = {"tmp_dir": w.mkdir("tmp")} if cfg["index"] else {}
+            dst = HashFileDB(ffs, ffs.store_root, **tmp)
+        else:
+            tmp = {"tmp_dir": w.mkdir("tmp")} if cfg["index"] else {}
+            src = HashFileDB(make_odb("base", w.p("src")).fs, w.p("src"), **tmp)
+            from dvc_data.hashfile.db.local import LocalHashFileDB
+
+            dst = LocalHashFileDB(ffs, ffs.store_root)
+        listings = {t: {r: MD5[c] for r, c in files.items()} for t, files in PUSH_TREES.items()}
+        objs = {}
+        for t, lst in listings.items():
+            objs[ref.tree_oid(lst)] = ref.tree_bytes(lst)
+            for c in PUSH_TREES[t].values():
+                objs[MD5[c]] = CONTENTS[c]
+        gone = {MD5[c] for c in cfg["missing"]}
+        for oid, data in objs.items():
+            if oid not in gone:
+                put_raw(src, oid, data)
+        idx = DataIndex()
+        for t, lst in listings.items():
+            idx[(t,)] = DataIndexEntry(key=(t,), meta=Meta(isdir=True), hash_info=HashInfo("md5", ref.tree_oid(lst)))
+        cache, remote = (src, dst) if cfg["direction"] == "push" else (dst, src)
+        idx.storage_map.add_cache(ObjectStorage((), cache))
+        idx.storage_map.add_remote(ObjectStorage((), remote))
+        seen_mid = []
+
+        def on_event(kind, oid, ok):
+            snap = objects_only(store_snapshot(dst.path))
+            for o in snap:
+                if o.endswith(".dir"):
+                    lst = ref.parse_listing(snap[o][0]) or {}
+                    miss = [h for h in lst.values() if h not in snap]
+                    if miss and not seen_mid:
+                        seen_mid.append((o, miss))
+
+        plan = Plan(fail_oids=cfg["fail"], on_event=on_event)
+        ffs.plan = plan
+        try:
+            data = collect([idx], "remote", push=cfg["direction"] == "push")
+            (push if cfg["direction"] == "push" else fetch)(data)
+        except Exception as e:  # noqa: BLE001
+            viol.append((f"{cfg['direction']}-raises-{type(e).__name__}", repr(e)))
+        ffs.plan = None
+        info["fired"] = plan.fired
+        snap = objects_only(store_snapshot(dst.path))
+        bad = []
+        for o in snap:
+            if o.endswith(".dir"):
+                lst = ref.parse_listing(snap[o][0]) or {}
+                miss = [h for h in lst.values() if h not in snap]
+                if miss:
+                    bad.append((o[:8], [m[:8] for m in miss]))
+        why = "file-missing-on-both-sides" if cfg["missing"] else "upload-failed"
+        if seen_mid:
+            viol.append((f"{cfg['direction']}-level/dir-object-present-without-listed-file/{why}/during", f"{seen_mid[0]}"))
+        if bad:
+            viol.append((f"{cfg['direction']}-level/dir-object-present-without-listed-file/{why}/end", f"{bad}"))
+        # clean retry completes whatever can be completed
+        try:
+            idx2 = DataIndex()
+            for t, lst in listings.items():
+                idx2[(t,)] = DataIndexEntry(key=(t,), meta=Meta(isdir=True), hash_info=HashInfo("md5", ref.tree_oid(lst)))
+            idx2.storage_map.add_cache(ObjectStorage((), cache))
+            idx2.storage_map.add_remote(ObjectStorage((), remote))
+            (push if cfg["direction"] == "push" else fetch)(collect([idx2], "remote", push=cfg["direction"] == "push"))
+        except Exception as e:  # noqa: BLE001
+            viol.append((f"retry-{cfg['direction']}-raises-{type(e).__name__}", repr(e)))
+        snap2 = objects_only(store_snapshot(dst.path))
+        want = set()
+        for t, lst in listings.items():
+            if not (set(lst.values()) & gone):
+                want |= set(lst.values()) | {ref.tree_oid(lst)}
+            else:
+                want |= set(lst.values()) - gone
+        if want - set(snap2):
+            viol.append((f"{cfg['direction']}-level/clean-retry-incomplete", f"missing {sorted(o[:8] for o in want - set(snap2))}"))
+    return viol, info
+
+
+def run_push_case(case):
+    res = {"n": 0, "trans": 0, "states": [], "outcomes": set(), "nontrivial": set(), "viol": [],
+           "vac": {"push_level_runs": 0, "push_level_faults_fired": 0}}
+    sigs = set()
+    base = case["cfg"]
+    objs = ["y", "z", "w"]
+    from .. import ref as _ref
+
+    dirs = [_ref.tree_oid({r: MD5[c] for r, c in f.items()}) for f in PUSH_TREES.values()]
+    cands = [MD5[c] for c in objs] + dirs
+    for missing in ([], ["y"], ["z"], ["w"]):
+        fails = list(subsets([c for c in cands if c not in {MD5[m] for m in missing}]))
+        for fail in fails:
+            cfg = dict(base, missing=missing, fail=list(fail))
+            viol, info = push_exec(cfg)
+            res["n"] += 1
+            res["trans"] += 3
+            res["vac"]["push_level_runs"] += 1
+            res["vac"]["push_level_faults_fired"] += info["fired"]
+            d = digest_obj(cfg)
+            res["states"].append(d)
+            if fail or missing:
+                res["nontrivial"].add(d)
+            res["outcomes"].add(repr(sorted(v[0] for v in viol)))
+            for sig, detail in viol:
+                if sig not in sigs:
+                    sigs.add(sig)
+                    res["viol"].append((sig, detail, dict(cfg, part="push")))
+    res["outcomes"] = sorted(res["outcomes"])
+    res["nontrivial"] = sorted(res["nontrivial"])
+    return res
+
+
 def run_case(case):
+    if case.get("part") == "push":
+        return run_push_case(case)
     cfg = case["cfg"]
     trees = SCENARIOS[cfg["scenario"]]
     order = case["order"]
@@ -172,6 +316,8 @@ def run_case(case):
 
 
 def replay(case):
+    if case.get("part") == "push":
+        return push_exec({k: v for k, v in case.items() if k != "part"})[0]
     viol, info = one_exec(case["cfg"], case["order"], case["fail"], case["abort_at"])
     if case["abort_at"] is not None:
         viol = [(s + "/after-abort", d) for s, d in viol]
@@ -203,7 +349,7 @@ def run(ctx):
         "three pairwise-sharing (thorough: + two-paths+sharing)} x destination class x with/without remote "
         "index x closed/expanded request x destination empty/partially filled x every directory order: "
         "every subset of the objects to upload fails (2^n) and, fault-free, an abort at every upload event; "
-        "closure invariant evaluated after every upload event and at the end, then a fault-free retry; "
+        "closure invariant evaluated after every upload event and at the end, then a fault-free retry; index-level collect+push and collect+fetch of two directory entries sharing a file, with every subset of failing uploads and each listed file missing on both sides; "
         "non-trivial = >= 2 trees and >= 1 fault, or an abort"
     )
     ctx.bound = {"scenarios": {k: v for k, v in SCENARIOS.items()}, "max_objects": 7,
@@ -214,8 +360,12 @@ def run(ctx):
         "crash engine of C15 for the store-to-store scenario)",
         "source store is local; requests are closed (directory + its files) or expanded (shallow=False)",
     ]
-    ctx.require("faults_fired", "shared_file_failed", "aborts", "events_checked")
+    ctx.require("faults_fired", "shared_file_failed", "aborts", "events_checked", "push_level_runs",
+                "push_level_faults_fired")
     cs = []
+    for direction in ("push", "fetch"):
+        for index in (False, True):
+            cs.append({"part": "push", "cfg": {"direction": direction, "index": index}})
     for cfg in configs(ctx.tier):
         trees = SCENARIOS[cfg["scenario"]]
         for perm in itertools.permutations([TREE_OID[t] for t in trees]):
